@@ -81,7 +81,10 @@ Record config := {
   c_explicit_exec : bool;   (* Params.RequireExplicitExec *)
   c_unique : bool;          (* Params.RequireUniqueNames *)
   c_update : bool;          (* Params.UpdateScripts *)
-  c_host_conds : list (bytes * bool);   (* values of the built-in conditions on this host *)
+  c_host_conds : list (bytes * bool);   (* values of short, net, link, symlink, gc, gccgo on this host *)
+  c_goos : bytes;                       (* runtime.GOOS *)
+  c_goarch : bytes;                     (* runtime.GOARCH *)
+  c_go_minor : N;                       (* the toolchain is go1.<c_go_minor>: build.Default.ReleaseTags = go1.1 .. go1.<c_go_minor> *)
   c_custom_cond : option (list (bytes * cond_res) * cond_res);  (* Params.Condition as a table + default *)
   c_cmds : list (bytes * custom_kind);  (* Params.Cmds *)
   c_main_cmds : list bytes;             (* commands registered through testscript.Main *)
@@ -307,6 +310,27 @@ Definition parse_exit (d : bytes) : option N :=
          end
   end.
 
+(* `ret N`: the helper's function RETURNS N to testscript.RunMain, which hands it to os.Exit; N is
+   any decimal integer, also negative or above 255, and the exit status the script engine sees is
+   what the operating system keeps of it: N mod 256 (-1 is 255, 256 is 0) *)
+Definition parse_ret (d : bytes) : option N :=
+  match d with
+  | [] => None
+  | c :: r =>
+      if beq c x2d then
+        match r with
+        | [] => None
+        | _ => match parse_digits 10 0 r with
+               | Some n => if N.leb n 1000000 then Some ((256 - n mod 256) mod 256)%N else None
+               | None => None
+               end
+        end
+      else match parse_digits 10 0 d with
+           | Some n => if N.leb n 1000000 then Some (n mod 256)%N else None
+           | None => None
+           end
+  end.
+
 (* `unhex` / `unhexerr`: the argument is lower-case hexadecimal, the bytes it spells are written
    to stdout / stderr (so that a script can produce any content at all) *)
 Definition hex_digit (b : byte) : option N :=
@@ -343,6 +367,11 @@ Definition helper_pure (sub : bytes) (a : list bytes) (stdin : bytes) (env : lis
   if bytes_eqb sub ((* "exit" *) [x65; x78; x69; x74]) then
     match a with
     | [n] => match parse_exit n with Some c => pres c [] [] | None => usage end
+    | _ => usage
+    end
+  else if bytes_eqb sub ((* "ret" *) [x72; x65; x74]) then
+    match a with
+    | [n] => match parse_ret n with Some c => pres c [] [] | None => usage end
     | _ => usage
     end
   else if bytes_eqb sub ((* "echo" *) [x65; x63; x68; x6f]) then pres 0 (join_with [SP] a ++ [NL]) []
